@@ -1050,6 +1050,23 @@ def size_rules_for(chk, db, fn, k, R, winfo):
         ok = len(paths) == 1 and len(atoms) == 3 and any(a.startswith('BaseEncodingSize(Prefix(p:value)') for a in atoms) and \
             any(a.startswith('BaseEncodingSize(135)') for a in atoms) and any(a.startswith('Size(HandleType()') for a in atoms) and \
             all(c == 1 for c in ret.t.values())
+        if not ok and len(paths) == 1:
+            # the same sum with its constant parts folded by the compiler (named constexpr locals): 9 bytes for the I64 reference
+            # plus the encoded size of the (constant) handle type
+            const = ret.t.get((), 0)
+            rest = [(m, c) for m, c in ret.t.items() if m]
+            k_type = None
+            try:
+                from . import il
+                ht = [g for g in db.fns if g['n'] == 'HandleType' and g.get('static') and 'body' in g and
+                      g.get('rec', '') in fn['recargs'][0]]
+                szf = [g for g in encoder_instances(db, {'Size'}) if g['recargs'][0] == 'unsigned long' and len(g['params']) == 1]
+                if ht and szf:
+                    k_type = il.run(db, szf[0], [il.run(db, ht[0], [])])
+            except Exception:
+                k_type = None
+            ok = len(rest) == 1 and rest[0][1] == 1 and len(rest[0][0]) == 1 and rest[0][0][0].startswith('BaseEncodingSize(Prefix(p:value)') and \
+                k_type is not None and const == 9 + k_type
         chk.decide(ok, R('SZ'), where, '%s = %r; documented upper bound: prefix + Size(handle type) + BaseEncodingSize(I64) for the reference' % (label, ret),
                    function=flabel)
 
